@@ -402,7 +402,16 @@ def run_case(case):
     info = {"returned": 0, "len2": False}
     if any(l["mode"] != "randsz" and len(l.get("init", [])) != l.get("size", 0) for l in lists):
         return [], info          # not a generated shape (the structural reducer shortened an initial list)
-    if not lists or any(l["mode"] == "randsz" and not any(s[0] == "expr" and "sz" in cjson(s) for s in stmts) for l in lists):
+    def bounds_size(s_, n_):
+        """top-level statement that bounds the size of list n_ from above by a literal (what every generated random-size
+        list has: the structural reducer may have removed it)"""
+        if s_[0] != "expr":
+            return False
+        e_ = s_[1]
+        if e_[0] == "bin" and e_[1] == "<=" and e_[2] == ["sz", n_] and e_[3][0] == "lit":
+            return True
+        return e_[0] == "in" and e_[1] == ["sz", n_] and all(i_[0] == "rng" and i_[2][0] == "lit" for i_ in e_[2])
+    if not lists or any(l["mode"] == "randsz" and not any(bounds_size(s, l["name"]) for s in stmts) for l in lists):
         return [], info
     reset_library()
     try:
@@ -492,8 +501,12 @@ def run_case(case):
         for l in lists:
             lo = lib_list(l["name"])
             n = len(lo)
-            it = [int(x) for x in lo]
-            ix = [int(lo[i]) for i in range(n)]
+            try:
+                it = [int(x) for x in lo]
+                ix = [int(lo[i]) for i in range(n)]
+            except Exception as e_:
+                return [V("length_disagree", "len(), size and iteration disagree", case,
+                          where + ": list %s len=%d size=%d, reading the elements raised %r" % (l["name"], n, lo.size, e_))], info
             if not (n == lo.size == len(it)):
                 return [V("length_disagree", "len(), size and iteration disagree", case,
                           where + ": list %s len=%d size=%d iterated=%d" % (l["name"], n, lo.size, len(it)))], info
